@@ -20,6 +20,7 @@ def run(ctx, replay):
         walcommon.run_wal(ctx, ["--histories", 0, "--big", 8], "big")
         walcommon.run_wal(ctx, ["--histories", 0, "--boundary", 12], "boundary")
         walcommon.run_wal(ctx, ["--histories", 0, "--rollfail", 8], "rollfail")
+        walcommon.run_wal(ctx, ["--histories", 0, "--drained", 12], "drained")
     else:
         tr = walcommon.run_wal(ctx, ["--histories", 12, "--ops", 50, "--images", 5, "--concurrent", 25], "a")
         walcommon.run_wal(ctx, ["--histories", 0, "--big", 1], "big")
@@ -27,6 +28,9 @@ def run(ctx, replay):
         walcommon.run_wal(ctx, ["--histories", 0, "--boundary", 4], "boundary")
         # the roll-over to the next data page fails (page acquisition fault), later appends, roll-over, reopen
         walcommon.run_wal(ctx, ["--histories", 0, "--rollfail", 2], "rollfail")
+        # a drained queue (everything acknowledged and synced) is closed, reopened and appended to (every third history
+        # after a roll-over): the log continues behind its last message
+        walcommon.run_wal(ctx, ["--histories", 0, "--drained", 3], "drained")
     # leg R: API-call histories chosen by TLC from the store-level model, executed against the real queue; `small`: one
     # byte per length unit, crash images after the stores of the part before the first close; `roll`: 32 MiB per unit,
     # the real 128 MiB data pages roll over exactly where the model's 4-unit pages do
